@@ -40,6 +40,9 @@ type Ctx struct {
 
 // Load loads and type-checks the module from source and builds SSA. Any type error is fatal:
 // undecided is failure.
+// overlayFiles, when set, replaces the content of the named files (absolute paths) for this load only.
+var overlayFiles map[string][]byte
+
 func Load(repoRoot, tier string, needSSA bool) (*Ctx, error) {
 	modDir := filepath.Join(repoRoot, "luahelper-lsp")
 	if _, err := os.Stat(filepath.Join(modDir, "go.mod")); err != nil {
@@ -48,10 +51,11 @@ func Load(repoRoot, tier string, needSSA bool) (*Ctx, error) {
 	env := os.Environ()
 	env = append(env, "GOFLAGS=-mod=mod", "GOPROXY=off", "GOSUMDB=off", "GOTOOLCHAIN=local", "GOWORK=off")
 	cfg := &packages.Config{
-		Mode:  packages.LoadAllSyntax,
-		Dir:   modDir,
-		Env:   env,
-		Tests: false,
+		Mode:    packages.LoadAllSyntax,
+		Dir:     modDir,
+		Env:     env,
+		Tests:   false,
+		Overlay: overlayFiles,
 	}
 	pkgs, err := packages.Load(cfg, "./...")
 	if err != nil {
